@@ -3877,10 +3877,32 @@ rfbSendRectEncodingRaw(rfbClientPtr cl,
 
         nlines = (UPDATE_BUF_SIZE - cl->ublen) / bytesPerLine;
         if (nlines == 0) {
-            rfbErr("rfbSendRectEncodingRaw: send buffer too small for %d "
-                   "bytes per line\n", bytesPerLine);
-            rfbCloseClient(cl);
-            return FALSE;
+            /* A single line is longer than the (now empty) buffer: translate and send the
+               remaining lines in pieces of as many whole pixels as fit. */
+            int bytesPerPixel = cl->format.bitsPerPixel / 8;
+            int serverBytesPerPixel = cl->scaledScreen->bitsPerPixel / 8;
+            int maxPixels = UPDATE_BUF_SIZE / bytesPerPixel;
+
+            while (h > 0) {
+                int px = 0;
+                while (px < w) {
+                    int n = w - px;
+                    if (n > maxPixels)
+                        n = maxPixels;
+                    (*cl->translateFn)(cl->translateLookupTable,
+                                       &(cl->screen->serverFormat), &cl->format,
+                                       fbptr + px * serverBytesPerPixel,
+                                       &cl->updateBuf[cl->ublen],
+                                       cl->scaledScreen->paddedWidthInBytes, n, 1);
+                    cl->ublen += n * bytesPerPixel;
+                    px += n;
+                    if (!rfbSendUpdateBuf(cl))
+                        return FALSE;
+                }
+                fbptr += cl->scaledScreen->paddedWidthInBytes;
+                h--;
+            }
+            return TRUE;
         }
     }
 }
